@@ -161,7 +161,7 @@ pub const DEF: PropDef = PropDef {
     components_real: &["sway_lsp::ServerState and all handlers", "compile worker thread", "sway-core / forc-pkg compilation", "crossbeam channel", "tokio Notify", "tokio::fs on a 1-thread blocking pool", "SyncWorkspace temp dirs", "PidLockedFiles"],
     components_stub: &["JSON-RPC transport and tower-lsp router (dispatcher model)", "LSP client (client: None)", "entropy (seeded shim)", "ps (fake, liveness table)"],
     assumptions: &["code between two hook points runs atomically", "crossbeam and Notify operations are linearizable", "file operations complete in submission order in batches of one handler poll"],
-    default_runs: (2400, 60000),
+    default_runs: (12000, 200000),
     default_wall: (240, 2400),
     default_workers: 4,
     level: "exploration",
